@@ -61,6 +61,14 @@ def variants(site):
     for i, v in enumerate(VOLTAGES):
         out.append((False, dict(caps[i % 3], voltage=v)))
         out.append((True, dict(caps[(i + 1) % 3], voltage=v)))
+    # degenerate-but-legal capacities: 0 kW (e.g. the first point of np.linspace(0, cap, n)) keeps the
+    # transformer's rows with a 0 A limit; a huge capacity on one transformer must not loosen the other
+    if site == "jpl":
+        out.append((False, dict(first_transformer_cap=0, third_fourth_transformer_cap=150)))
+        out.append((True, dict(first_transformer_cap=45, third_fourth_transformer_cap=0.0)))
+        out.append((False, dict(first_transformer_cap=45, third_fourth_transformer_cap=1e9)))
+    if site == "office001":
+        out.append((False, dict(transformer_cap=0)))
     # every public constructor alias of the site (documented backward-compatible names) builds the same
     # site for the same arguments
     for alias in ALIASES.get(site, []):
